@@ -65,7 +65,7 @@ def gen_cases(ctx, forest, ntrees, per_tree):
             # known finding (C03 H-rootlink-depth): -H, -depth and a starting point that is a link to a directory
             if post and mode == "H" and any(x == b"rl_dir" for x in roots):
                 post = False
-            cases.append(dict(treekey=(ctx.seed, k), roots=roots, mode=mode, mind=mind, maxd=maxd, post=post, prune=None))
+            cases.append(dict(treekey=(ctx.seed, k), roots=roots, mode=mode, mind=mind, maxd=maxd, post=post, post_late=rng.choice([None, None, "-depth"]), prune=None))
     return cases
 
 
